@@ -397,10 +397,21 @@ def regex_crate_pass(run, r, log):
                         if smp:
                             disagree.append((i, li, smp.encode('utf-8')))
     found = written_reference_search(run, r, disagree, binp, log) if disagree else 0
-    return dict(comparisons=n, matching_strings=matched, disagreements=bad, failing_inputs_found=found)
+    # ... and as a standing oracle: on a sample of the short inputs of every definition without callbacks, subpatterns and
+    # look-around, the tokens and skips of the compiled lexer against the reference lexer over the patterns as written
+    # (independent of the HIRs, priorities aside, and of the leaf table the derive built)
+    sample = {}
+    for i in r['accepted']:
+        ins = [b for b in r['inputs'][i] if 0 < len(b) <= 10]
+        if ins:
+            step = max(1, len(ins) // (12 if r['tier'] == 'quick' else 60))
+            sample[i] = ins[::step]
+    st = written_reference_search(run, r, [], binp, log, extra=sample, stats=True)
+    return dict(comparisons=n, matching_strings=matched, disagreements=bad, failing_inputs_found=found,
+                written_reference_lexer=st)
 
 
-def written_reference_search(run, r, disagree, refbin, log):
+def written_reference_search(run, r, disagree, refbin, log, extra=None, stats=False):
     """When a leaf as compiled and the pattern as written disagree on a string: run the compiled lexer on inputs built from
     that string and compare with a reference lexer made of the patterns *as written* (regex crate, Unicode mode from the
     literal kind, longest match over all leaves, recorded priorities).  Definitions without callbacks and subpatterns only."""
@@ -416,13 +427,24 @@ def written_reference_search(run, r, disagree, refbin, log):
         if d.subpatterns or any(l.cb for l in d.leaves) or d.errcb:
             continue
         by_def.setdefault(i, set()).update([w, w + w, b'a ' + w, w + b' a'])
+    for i, ins in (extra or {}).items():
+        d = corpus[i]
+        if d.subpatterns or any(l.cb for l in d.leaves) or d.errcb:
+            continue
+        by_def.setdefault(i, set()).update(ins)
     found = 0
+    ndefs = ninputs = 0
     for i, cands in by_def.items():
         d = corpus[i]
         leaves = d.ordered_leaves()
-        cands = sorted(c for c in cands if len(c) <= 16 and (not d.utf8 or P.is_valid_utf8(list(c))))[:12]
-        if not cands or any(getattr(lf, 'look', False) for lf in leaves):
+        cands = sorted(c for c in cands if len(c) <= 16 and (not d.utf8 or P.is_valid_utf8(list(c))))[:(12 if not extra else 80)]
+        if not cands or any(getattr(lf, 'look', False) for lf in leaves) or len(caps[i].leaves) != len(leaves):
             continue
+        # patterns with look-around assertions cannot be judged on a substring in isolation (`$` would hold at its end)
+        if any(re.search(r'\$|\^|\\[bBAzZ<>]|\(\?[a-zA-Z-]*m', (lf.pat if isinstance(lf.pat, str) else lf.pat.decode('latin-1'))) for lf in leaves if lf.kind != 'token'):
+            continue
+        ndefs += 1
+        ninputs += len(cands)
         # every substring of every candidate against every leaf as written
         reqs, idxs = [], []
         for li, lf in enumerate(leaves):
@@ -485,6 +507,8 @@ def written_reference_search(run, r, disagree, refbin, log):
                 found += 1
                 run.violation('oracle', rep_of(r, i, cfg, 'n', hx, observed=v, what=why, found_by='reference lexer over the patterns as written (regex crate), started by a spec-vs-regex-crate disagreement'),
                               key='written|%s|%s' % (corpus[i].origin, hx))
+    if stats:
+        return dict(definitions=ndefs, inputs=ninputs, failing=found)
     return found
 
 
